@@ -48,7 +48,7 @@ def spec_from_case(case):
     return spec
 
 
-def check_spec(spec, kind="mcfs", only=None, ignore=(), open_kw=None, attitude_plus_days=0, files=None, resolved=None, pre=()):
+def check_spec(spec, kind="mcfs", only=None, ignore=(), open_kw=None, attitude_plus_days=0, files=None, resolved=None, pre=(), prepare=None):
     """-> dict(ok, failures [{sig, detail}], n_leaves, unverified, error)
 
     pre: option dicts of opens performed (and discarded) on the same product before the compared one"""
@@ -57,6 +57,8 @@ def check_spec(spec, kind="mcfs", only=None, ignore=(), open_kw=None, attitude_p
     exp = refmodel.expected(spec, resolved, attitude_plus_days=attitude_plus_days)
     with harness.Product(files, kind) as prod:
         try:
+            if prepare is not None:
+                prepare(prod)
             for kw in pre:
                 prod.open(**kw)
             tree = prod.open(**(open_kw or {}))
